@@ -64,8 +64,15 @@ U == S * G      \* sample values are integers in units 1/U
 Abs(a) == IF a < 0 THEN -a ELSE a
 RECURSIVE Pow(_, _)
 Pow(b, e) == IF e = 0 THEN 1 ELSE b * Pow(b, e - 1)
-\* integer d-th root by search: the largest L with L^d <= n
-IRoot(n, d) == IF n < 1 THEN 0 ELSE CHOOSE L \in 1..n : Pow(L, d) <= n /\ Pow(L + 1, d) > n
+\* integer d-th root by search in exact integer arithmetic: the largest L with L^d <= n.
+\* Doubling finds hi with hi^d > n, then bisection keeps lo^d <= n < hi^d
+\* (hi^d <= 2^d * n stays below 2^31 for the n and d explored).
+RECURSIVE Above(_, _, _), Bisect(_, _, _, _)
+Above(n, d, h) == IF Pow(h, d) > n THEN h ELSE Above(n, d, 2 * h)
+Bisect(n, d, lo, hi) == IF hi - lo <= 1 THEN lo
+                        ELSE LET mid == (lo + hi) \div 2
+                             IN  IF Pow(mid, d) <= n THEN Bisect(n, d, mid, hi) ELSE Bisect(n, d, lo, mid)
+IRoot(n, d) == IF n < 1 THEN 0 ELSE IF d = 1 THEN n ELSE Bisect(n, d, 1, Above(n, d, 2))
 
 ----------------------------------------------------------------------------
 (* Design spaces (S = 8): asymmetric dyadic bounds, mixed float / integer.  *)
@@ -79,6 +86,9 @@ Catalogue == <<
   << F(-24, -8), F(8, 72), I(16, 56) >>,              \* 5: d = 3
   << F(-24, -8), I(-8, 16), F(4, 6), F(8, 72) >>      \* 6: d = 4
 >>
+\* SpaceIds above 100: the unit space [0,1]^d with d = id - 100 (large dimensions, count rules)
+UnitSpace(d) == [k \in 1..d |-> F(0, S)]
+SpaceOf(i) == IF i > 100 THEN UnitSpace(i - 100) ELSE Catalogue[i]
 Dim == Len(sp)
 
 ----------------------------------------------------------------------------
@@ -212,10 +222,10 @@ StructureOK(f, n, d, p, u) ==
     [] f = "bb"       -> ValuesIn(u, {0, G \div 2, G})
     [] OTHER          -> TRUE
 
-RECURSIVE DedupR(_, _, _)
-DedupR(s, i, acc) == IF i > Len(s) THEN acc
-                     ELSE DedupR(s, i + 1, IF \E k \in 1..Len(acc) : acc[k] = s[i] THEN acc ELSE Append(acc, s[i]))
-Dedup(s) == DedupR(s, 1, <<>>)     \* distinct elements in order of first occurrence
+\* distinct elements in order of first occurrence (no recursion: designs of a few hundred rows)
+FirstOcc(s) == {i \in 1..Len(s) : \A j \in 1..(i - 1) : s[j] # s[i]}
+Dedup(s) == LET first == FirstOcc(s)
+            IN  [m \in 1..Cardinality(first) |-> s[CHOOSE i \in first : Cardinality({j \in first : j <= i}) = m]]
 
 SeedUsed(seeded, seed, d0) == IF seeded THEN seed ELSE d0 + 1     \* Seeder.get_seed
 
@@ -227,7 +237,7 @@ NoCall == [inst |-> CHOOSE i \in Insts : TRUE, api |-> "compute", fam |-> "exact
 
 Init == /\ dflt = [i \in Insts |-> 0]
         /\ flag \in BOOLEAN
-        /\ sp \in {Catalogue[i] : i \in SpaceIds}
+        /\ sp \in {SpaceOf(i) : i \in SpaceIds}
         /\ pc = "idle"
         /\ cur = NoCall
         /\ memo = <<>>
